@@ -217,6 +217,13 @@ class Check:
         os.makedirs(self.gen, exist_ok=True)
         self.replay_dir = os.path.join(VERIF, "replays", pid)
         os.makedirs(self.replay_dir, exist_ok=True)
+        for f in os.listdir(self.replay_dir):
+            # replays belong to one run; stale ones would be misleading
+            if f.startswith("v") and f.endswith(".json"):
+                try:
+                    os.unlink(os.path.join(self.replay_dir, f))
+                except OSError:
+                    pass
 
     # -- bookkeeping ---------------------------------------------------------
     def obligation(self, ok, n=1):
